@@ -11,6 +11,12 @@ use super::*;
 pub static mut CUR_TID: usize = 1;
 pub static mut DROPS: u32 = 0; // payload destructor runs
 pub static mut ENQUEUED: u32 = 0; // QueueHandle::enqueue calls
+// Kani de-duplicates concrete playbacks with identical values; a tag that every
+// counterexample cover pins to its own number keeps each playback distinct.
+pub static mut TAG: u8 = 0;
+fn tag_init() {
+    unsafe { TAG = kani::any() };
+}
 
 fn cur_tid_stub() -> ThreadId {
     ThreadId::new(NonZeroUsize::new(unsafe { CUR_TID }).unwrap())
@@ -37,6 +43,10 @@ impl Clone for P {
 
 const OWNER: usize = 1;
 const LIM: u32 = 1 << 20; // stated bound on every counter magnitude (30-bit field: |S| < 2^29)
+
+// Every assertion with a message is preceded by a cover of its negation ("CEX:<message>"):
+// the cover's concrete playback is the counterexample (Kani does not always emit a playback
+// for a failed assertion; for covers it does).  These covers are expected UNSATISFIABLE.
 
 // ---------------------------------------------------------------- ghost state
 #[derive(Clone, Copy)]
@@ -150,6 +160,7 @@ fn body_base_new(_mask: bool, _small: bool) {
     let a = BiasedRc::new(P(7));
     let g = unsafe { read(a.ptr, [1, 0, 0], false) };
     kani::cover!(true, "reach");
+    kani::cover!(!(inv(&g)) && unsafe { TAG } == 1, "CEX:new() establishes the invariant");
     assert!(inv(&g), "new() establishes the invariant");
     assert!(a.0 == 7);
     mem::forget(a);
@@ -157,6 +168,7 @@ fn body_base_new(_mask: bool, _small: bool) {
 
 // ---------------------------------------------------------------- clone
 fn body_step_clone(_mask: bool, small: bool) {
+    tag_init();
     let g = any_g_s(small);
     let t = any_tid();
     kani::assume(g.h[t - 1] >= 1); // the acting thread holds a handle
@@ -167,12 +179,15 @@ fn body_step_clone(_mask: bool, small: bool) {
     kani::cover!(t == OWNER && !g.merged, "owner fast path");
     kani::cover!(t != OWNER && !g.merged, "non-owner slow path");
     kani::cover!(g.merged, "merged");
+    kani::cover!(!(unsafe { DROPS } == 0) && unsafe { TAG } == 2, "CEX:clone never destroys the payload");
     assert!(unsafe { DROPS } == 0, "clone never destroys the payload");
     assert!(unsafe { ENQUEUED } == 0);
+    kani::cover!(!(c.0 == 7) && unsafe { TAG } == 3, "CEX:contents intact");
     assert!(c.0 == 7, "contents intact");
     let mut h = g.h;
     h[t - 1] += 1;
     let g2 = unsafe { read(p, h, g.in_queue) };
+    kani::cover!(!(inv(&g2)) && unsafe { TAG } == 4, "CEX:clone preserves the invariant");
     assert!(inv(&g2), "clone preserves the invariant");
     mem::forget(a);
     mem::forget(c);
@@ -180,6 +195,7 @@ fn body_step_clone(_mask: bool, small: bool) {
 
 // ---------------------------------------------------------------- drop
 fn body_step_drop(mask_stale_queue: bool, small: bool) {
+    tag_init();
     let g = any_g_s(small);
     let t = any_tid();
     kani::assume(g.h[t - 1] >= 1);
@@ -194,31 +210,38 @@ fn body_step_drop(mask_stale_queue: bool, small: bool) {
     kani::cover!(!destroyed && !enq && t == OWNER, "owner nothing");
     kani::cover!(!destroyed && g.merged, "merged decrement");
     kani::cover!(!destroyed && !g.merged && t == OWNER && g.b == 1, "owner merge on last biased");
+    kani::cover!(!(unsafe { DROPS } <= 1) && unsafe { TAG } == 5, "CEX:destroyed at most once");
     assert!(unsafe { DROPS } <= 1, "destroyed at most once");
     let mut h = g.h;
     h[t - 1] -= 1;
     let total2 = g.total() - 1;
     if destroyed {
+        kani::cover!(!(total2 == 0) && unsafe { TAG } == 6, "CEX:payload destroyed only after the last reference is dropped");
         assert!(total2 == 0, "payload destroyed only after the last reference is dropped");
         // known-finding mask: only the pre-states with a live queue entry are excluded
         if !(mask_stale_queue && g.in_queue) {
+            kani::cover!(!(!g.in_queue && !enq) && unsafe { TAG } == 7, "CEX:no merge-queue entry may outlive the box");
             assert!(!g.in_queue && !enq, "no merge-queue entry may outlive the box");
         }
     } else {
         let g2 = unsafe { read(p, h, g.in_queue || enq) };
         // Queue is signalled exactly when the queued flag flips
+        kani::cover!(!(enq == (g2.queued && !g.queued)) && unsafe { TAG } == 8, "CEX:enqueue iff queued flag flipped");
         assert!(enq == (g2.queued && !g.queued), "enqueue iff queued flag flipped");
         if total2 == 0 {
             // last reference gone but not destroyed: only legal when the owner's
             // pending explicit merge will do it
+            kani::cover!(!(!g2.merged && g2.in_queue) && unsafe { TAG } == 9, "CEX:last drop either destroys or leaves it to a queued merge");
             assert!(!g2.merged && g2.in_queue, "last drop either destroys or leaves it to a queued merge");
         }
+        kani::cover!(!(inv(&g2)) && unsafe { TAG } == 10, "CEX:drop preserves the invariant");
         assert!(inv(&g2), "drop preserves the invariant");
     }
 }
 
 // ---------------------------------------------------------------- get_mut / has_unique_ref
 fn body_step_get_mut(_mask: bool, small: bool) {
+    tag_init();
     let g = any_g_s(small);
     let t = any_tid();
     kani::assume(g.h[t - 1] >= 1);
@@ -231,16 +254,19 @@ fn body_step_get_mut(_mask: bool, small: bool) {
     kani::cover!(!granted && g.merged, "refused merged");
     kani::cover!(!granted && !g.merged && t != OWNER, "refused non-owner");
     if granted {
+        kani::cover!(!(g.total() == 1) && unsafe { TAG } == 11, "CEX:exclusive access only to the sole holder");
         assert!(g.total() == 1, "exclusive access only to the sole holder");
     }
     assert!(unsafe { DROPS } == 0 && unsafe { ENQUEUED } == 0);
     let g2 = unsafe { read(p, g.h, g.in_queue) };
+    kani::cover!(!(inv(&g2)) && unsafe { TAG } == 12, "CEX:uniqueness test preserves the invariant");
     assert!(inv(&g2), "uniqueness test preserves the invariant");
     mem::forget(a);
 }
 
 // ---------------------------------------------------------------- make_mut
 fn body_step_make_mut(_mask: bool, small: bool) {
+    tag_init();
     let g = any_g_s(small);
     let t = any_tid();
     kani::assume(g.h[t - 1] >= 1);
@@ -255,9 +281,11 @@ fn body_step_make_mut(_mask: bool, small: bool) {
     kani::cover!(same, "in place");
     kani::cover!(!same, "copied");
     if same {
+        kani::cover!(!(g.total() == 1) && unsafe { TAG } == 13, "CEX:in-place mutation only by the sole holder");
         assert!(g.total() == 1, "in-place mutation only by the sole holder");
         assert!(unsafe { DROPS } == 0);
         let g2 = unsafe { read(p, g.h, g.in_queue) };
+        kani::cover!(!(inv(&g2)) && unsafe { TAG } == 14, "CEX:make_mut (unique) preserves the invariant");
         assert!(inv(&g2), "make_mut (unique) preserves the invariant");
     } else {
         // copied: the old box lost this handle, the new one is fresh and owned by t
@@ -268,10 +296,13 @@ fn body_step_make_mut(_mask: bool, small: bool) {
         let mut h = g.h;
         h[t - 1] -= 1;
         if destroyed {
+            kani::cover!(!(g.total() == 1) && unsafe { TAG } == 15, "CEX:old payload destroyed only if this was the last reference");
             assert!(g.total() == 1, "old payload destroyed only if this was the last reference");
         } else {
             let g2 = unsafe { read(p, h, g.in_queue || enq) };
+            kani::cover!(!(unsafe { (*p.as_ptr()).data.0 } == 7) && unsafe { TAG } == 16, "CEX:other holders still see the old contents");
             assert!(unsafe { (*p.as_ptr()).data.0 } == 7, "other holders still see the old contents");
+            kani::cover!(!(inv(&g2)) && unsafe { TAG } == 17, "CEX:make_mut (copy) preserves the invariant of the old box");
             assert!(inv(&g2), "make_mut (copy) preserves the invariant of the old box");
         }
     }
@@ -280,6 +311,7 @@ fn body_step_make_mut(_mask: bool, small: bool) {
 
 // ---------------------------------------------------------------- try_unwrap
 fn body_step_try_unwrap(mask_stale_queue: bool, small: bool) {
+    tag_init();
     let g = any_g_s(small);
     let t = any_tid();
     kani::assume(g.h[t - 1] >= 1);
@@ -290,11 +322,14 @@ fn body_step_try_unwrap(mask_stale_queue: bool, small: bool) {
         Ok(v) => {
             kani::cover!(g.merged, "unwrapped merged");
             kani::cover!(!g.merged, "unwrapped biased");
+            kani::cover!(!(g.total() == 1) && unsafe { TAG } == 18, "CEX:unwrap only by the sole holder");
             assert!(g.total() == 1, "unwrap only by the sole holder");
             if !(mask_stale_queue && g.in_queue) {
+                kani::cover!(!(!g.in_queue) && unsafe { TAG } == 19, "CEX:no merge-queue entry may outlive the box");
                 assert!(!g.in_queue, "no merge-queue entry may outlive the box");
             }
             assert!(v.0 == 7);
+            kani::cover!(!(unsafe { DROPS } == 0) && unsafe { TAG } == 20, "CEX:payload moved out, not destroyed");
             assert!(unsafe { DROPS } == 0, "payload moved out, not destroyed");
             mem::forget(v);
         }
@@ -302,6 +337,7 @@ fn body_step_try_unwrap(mask_stale_queue: bool, small: bool) {
             kani::cover!(true, "refused");
             assert!(unsafe { DROPS } == 0 && unsafe { ENQUEUED } == 0);
             let g2 = unsafe { read(p, g.h, g.in_queue) };
+            kani::cover!(!(inv(&g2)) && unsafe { TAG } == 21, "CEX:failed unwrap preserves the invariant");
             assert!(inv(&g2), "failed unwrap preserves the invariant");
             mem::forget(back);
         }
@@ -310,6 +346,7 @@ fn body_step_try_unwrap(mask_stale_queue: bool, small: bool) {
 
 // ---------------------------------------------------------------- explicit merge (owner processes its queue entry)
 fn body_step_explicit_merge(_mask: bool, small: bool) {
+    tag_init();
     let g = any_g_s(small);
     kani::assume(g.in_queue);
     let a = build(&g);
@@ -327,11 +364,14 @@ fn body_step_explicit_merge(_mask: bool, small: bool) {
     kani::cover!(!destroyed && g.merged, "merge of already merged");
     assert!(unsafe { DROPS } <= 1);
     if destroyed {
+        kani::cover!(!(g.total() == 0) && unsafe { TAG } == 22, "CEX:merge destroys only when no reference is left");
         assert!(g.total() == 0, "merge destroys only when no reference is left");
     } else {
+        kani::cover!(!(g.total() >= 1) && unsafe { TAG } == 23, "CEX:merge with no reference left must destroy");
         assert!(g.total() >= 1, "merge with no reference left must destroy");
         let g2 = unsafe { read(p, g.h, false) };
         assert!(g2.merged);
+        kani::cover!(!(inv(&g2)) && unsafe { TAG } == 24, "CEX:explicit merge preserves the invariant");
         assert!(inv(&g2), "explicit merge preserves the invariant");
     }
     mem::forget(q);
